@@ -57,7 +57,7 @@ fn shrink_family(rng: &mut Rng, thorough: bool, out: &mut Vec<String>) {
 /// A value-mapping array->array codec (lossless fixedscaleoffset, offset 1): the ENCODED fill value differs from the fill
 /// value. Histories that make a chunk consist entirely of the value whose encoding is the fill value (`fill + 1`) and of
 /// the encoded fill value itself (`fill - 1`): neither chunk is "all fill"; both must be stored and read back.
-fn value_mapping_family(rng: &mut Rng, out: &mut Vec<String>) {
+pub fn value_mapping_family(rng: &mut Rng, out: &mut Vec<String>, prop: &str) {
     let dts = dtypes();
     let dt = dts.iter().find(|d| d.name == "int32").unwrap().clone();
     for fi in 0..dt.fills.len() {
@@ -67,19 +67,19 @@ fn value_mapping_family(rng: &mut Rng, out: &mut Vec<String>) {
                 keys: ("default".into(), "/".into()), codecs_json: json, chain_desc: "fso1|bytes".into(), sharded: false, path: "/v".into(), eff_inner: None };
             let f = i32::from_le_bytes(cfg.fill.1.clone().try_into().unwrap());
             for special in [f.wrapping_sub(1), f.wrapping_add(1)] {
-                out.push(cfg.cfg_line("c05", "memory", false, true, ""));
+                out.push(cfg.cfg_line(prop, "memory", false, true, ""));
                 let v = special.to_le_bytes().to_vec();
                 let row = show_elems(&vec![v.clone(); 2]);
                 for c in ["0,0", "1,0"] {
-                    out.push(format!("c05 op store_chunk_subset c={} r=0,0+1,2 data={}", c, row));
-                    out.push(format!("c05 op store_chunk_subset c={} r=1,0+1,2 data={}", c, row));
-                    out.push(format!("c05 op retrieve_chunk c={}", c));
-                    out.push(format!("c05 op raw c={}", c));
-                    if rng.chance(1, 2) { out.push(format!("c05 op store_chunk_subset c={} r=0,1+2,1 data={}", c, show_elems(&vec![cfg.fill.1.clone(); 2]))); out.push(format!("c05 op retrieve_chunk c={}", c)); }
+                    out.push(format!("{} op store_chunk_subset c={} r=0,0+1,2 data={}", prop, c, row));
+                    out.push(format!("{} op store_chunk_subset c={} r=1,0+1,2 data={}", prop, c, row));
+                    out.push(format!("{} op retrieve_chunk c={}", prop, c));
+                    if prop == "c05" { out.push(format!("{} op raw c={}", prop, c)); }
+                    if rng.chance(1, 2) { out.push(format!("{} op store_chunk_subset c={} r=0,1+2,1 data={}", prop, c, show_elems(&vec![cfg.fill.1.clone(); 2]))); out.push(format!("{} op retrieve_chunk c={}", prop, c)); }
                 }
-                out.push("c05 op keys".into());
-                out.push("c05 op reopen".into());
-                out.push("c05 op retrieve_array_subset r=0,0+4,2".into());
+                out.push(format!("{} op keys", prop));
+                out.push(format!("{} op reopen", prop));
+                out.push(format!("{} op retrieve_array_subset r=0,0+4,2", prop));
             }
         }
     }
@@ -91,7 +91,7 @@ pub fn generate(tier: &str, seed: u64) -> Vec<String> {
     let ncfg = if thorough { 5000 } else { 450 };
     let mut out = vec![];
     shrink_family(&mut rng, thorough, &mut out);
-    value_mapping_family(&mut rng, &mut out);
+    value_mapping_family(&mut rng, &mut out, "c05");
     let mut k = 0;
     while k < ncfg {
         let cfg = gen_cfg(&mut rng, if k % 3 != 2 { Some(true) } else { Some(false) });
